@@ -27,8 +27,13 @@ GInit == Init /\ hist = <<>>
 \* (a relayed stream that finds no next hop starts a route search of its own in the implementation; the
 \* model just drops it; the driver gives the search up and the judge counts it as one more FindRoute)
 
+\* relayed streams are injected where they can be forwarded (a neighbour or some route to the destination)
+InjectUseful == last'.op = "inject" =>
+                  LET m == last'.m IN m.dest \in Nbrs(m.to) \/ st[m.to].tb.routes[m.dest] # <<>>
+
 GNext == /\ Len(hist) < Depth
          /\ Next
+         /\ InjectUseful
          /\ hist' = Append(hist, last')
 GSpec == GInit /\ [][GNext]_<<vars, hist>>
 
